@@ -1,4 +1,5 @@
 import Tahoe.Dir.Authority
+import Tahoe.Dir.PackLemmas
 /-! C18 — read-only directory access is transitive (property theorems; models in
     `Tahoe/Dir/Authority.lean` (symbolic terms, Dolev–Yao derivability, handles) and `Tahoe/Dir/Pack.lean`
     (`_unpack_contents`, `create_from_cap`)). -/
@@ -105,6 +106,67 @@ theorem createFromCap_none_rw (classify : Bytes → CapClass) (ro : Option Bytes
     | unknownErr =>
       simp only [mkUnknown, orNone, truthy, Bool.false_eq_true, if_false]
       (repeat' split) <;> rfl
+
+/-- **A cap given only in the write slot never reaches the clear-text read slot.**  `create_from_cap(cap, None)`
+    with a non-empty cap that carries no `ro.`/`imm.` prefix either recognises the cap — then the node's
+    `get_readonly_uri()` is the read-only form computed by the cap library — or yields an `UnknownNode` that
+    records an error (`MustNotBeUnknownRWError`: "we cannot tell whether it is a writecap, and we don't know how
+    to diminish it"), and such a node is refused by `_pack_normalized_children` (`child.raise_error()`), in every
+    kind of directory.  So `_pack_normalized_children` never writes the given string into an `ro_uri` field. -/
+theorem rw_only_cap_never_in_ro_slot (classify : Bytes → CapClass) (cap : Bytes) (dI : Bool)
+    (hne : truthy (some cap) = true)
+    (hp1 : startsWith cap immPrefix = false) (hp2 : startsWith cap roPrefix = false) :
+    (createFromCap classify (some cap) none dI).err = true ∨
+    ∃ m w cn rf, classify cap = .known m w cn rf ∧
+      createFromCap classify (some cap) none dI = ⟨false, if w then some cn else none, some rf, m, false⟩ := by
+  have hunk : (mkUnknown classify (some cap) none dI).err = true := by
+    cases cap with
+    | nil => simp [truthy] at hne
+    | cons a t => cases dI <;> simp [mkUnknown, orNone, truthy, hp1, hp2, opaqueNode]
+  unfold createFromCap
+  simp only [hne, if_true, orNone]
+  cases hf : fromString classify cap dI with
+  | known m w cn rf =>
+    right
+    refine ⟨m, w, cn, rf, ?_, rfl⟩
+    simp only [fromString, hp1, hp2, Bool.false_eq_true, if_false] at hf
+    cases hc : classify cap with
+    | known m' w' cn' rf' =>
+      rw [hc] at hf
+      simp only [] at hf
+      split at hf
+      · split at hf
+        · cases hf; rfl
+        · cases hf
+      · split at hf
+        · split at hf
+          · cases hf; rfl
+          · cases hf
+        · cases hf; rfl
+    | testWriteable => rw [hc] at hf; simp only [] at hf; split at hf <;> cases hf
+    | testMutable => rw [hc] at hf; simp only [] at hf; split at hf <;> cases hf
+    | unknown => rw [hc] at hf; cases hf
+    | bad => rw [hc] at hf; cases hf
+  | unknownOk => left; exact hunk
+  | unknownErr => left; exact hunk
+
+/-- … and a child list containing such an unrecognised lone cap cannot be packed at all. -/
+theorem lone_unknown_cap_is_not_packed {Name J Key : Type} [DecidableEq Name] (W : World Name J Key)
+    (cap : Bytes) (dI : Bool) (hne : truthy (some cap) = true)
+    (hp1 : startsWith cap immPrefix = false) (hp2 : startsWith cap roPrefix = false)
+    (hcls : ∀ m w cn rf, W.classify cap ≠ .known m w cn rf)
+    (key : Option Key) (deepImm aux : Bool) (c : List (Name × Child J)) (name : Name) (md : J) (a : Option Bytes)
+    (hin : (name, ⟨createFromCap W.classify (some cap) none dI, md, a⟩) ∈ c) (data : Bytes) :
+    pack W key deepImm aux c ≠ .ok data := by
+  intro hpack
+  have hp := pack_ok_inv W key deepImm aux c data hpack _ hin
+  rcases rw_only_cap_never_in_ro_slot W.classify cap dI hne hp1 hp2 with h | ⟨m, w, cn, rf, hk, _⟩
+  · rw [hp.1] at h; cases h
+  · exact hcls m w cn rf hk
+
+example : (createFromCap (fun _ => .unknown) (some [108, 97]) none false).err = true ∧
+    (createFromCap (fun _ => .unknown) (some (roPrefix ++ [108, 97])) none false).ro = some (roPrefix ++ [108, 97]) := by
+  decide
 
 /-- **Children of a read-only directory are read-only.**  Every child that `_unpack_contents` returns through
     a read-only parent (`writeable = False`: rw_uri forced empty, node created from the ro slot alone) — for any
